@@ -2,6 +2,7 @@ package exec
 
 import (
 	"fmt"
+	"github.com/uhn/ggql/pkg/ggql"
 	"strings"
 	"testing"
 
@@ -314,7 +315,7 @@ func inject(t *rapid.T, c *Case, kind string) (df Defect, ok bool) {
 			return df, false
 		}
 		df.Name = "zzz"
-		which := rapid.SampledFrom([]string{"include", "skip", "onfield"}).Draw(t, "udaDir")
+		which := rapid.SampledFrom([]string{"include", "skip", "onfield", "plain"}).Draw(t, "udaDir")
 		du := hx.DirUse{Name: which}
 		switch which {
 		case "include":
@@ -441,6 +442,142 @@ type c10Case struct {
 	*Case
 	Base   *Case  `json:"base"` // the defect-free request
 	Defect Defect `json:"defect"`
+	// Meta: the case is of the second scenario (see c10Meta); Case and Base are nil then
+	Meta *c10Meta `json:"meta,omitempty"`
+}
+
+// c10Meta: the meta fields __schema and __type are fields of the query root only. The schema names
+// its query type in a schema block (Root) and has an ordinary object type called Query; the request
+// selects a meta field at the root (defined there) or below it (not defined there).
+type c10Meta struct {
+	Path  []string `json:"path"` // fields from the root down to the container: "q" (Root.q: Query), then "sub" (Query.sub: Query)
+	Field string   `json:"field"`
+	Alias string   `json:"alias,omitempty"`
+	Strat string   `json:"strategy"` // R | X
+}
+
+const c10MetaSDL = `schema { query: Root }
+type Root { a: Int q: Query }
+type Query { a: Int sub: Query }
+`
+
+type c10MetaNode struct {
+	depth int
+	calls *[]string
+}
+
+func (n *c10MetaNode) Resolve(field *ggql.Field, args map[string]interface{}) (interface{}, error) {
+	*n.calls = append(*n.calls, field.Name)
+	switch field.Name {
+	case "a":
+		return 7, nil
+	case "query", "q", "sub":
+		if n.depth > 6 {
+			return nil, nil
+		}
+		return &c10MetaNode{depth: n.depth + 1, calls: n.calls}, nil
+	}
+	return "POISON:resolver-asked-for-" + field.Name, nil
+}
+
+type c10MetaX struct {
+	A     int
+	Q     *c10MetaX
+	Sub   *c10MetaX
+	Query *c10MetaX
+}
+
+func genC10Meta(t *rapid.T) *c10Meta {
+	m := &c10Meta{Strat: rapid.SampledFrom([]string{"R", "X"}).Draw(t, "metaStrategy")}
+	depth := rapid.IntRange(0, 3).Draw(t, "metaDepth")
+	for i := 0; i < depth; i++ {
+		if i == 0 {
+			m.Path = append(m.Path, "q")
+		} else {
+			m.Path = append(m.Path, "sub")
+		}
+	}
+	m.Field = rapid.SampledFrom([]string{`__schema { queryType { name } }`, `__type(name: "Query") { name kind }`, `__type(name: "Root") { name }`, `__schema { types { name } }`}).Draw(t, "metaField")
+	m.Alias = rapid.SampledFrom([]string{"", "m", "a2"}).Draw(t, "metaAlias")
+	return m
+}
+
+func checkC10Meta(m *c10Meta) (ds []hx.Discrepancy, res map[string]interface{}) {
+	add := func(kind, format string, args ...interface{}) {
+		ds = append(ds, hx.Discrepancy{Kind: kind, Detail: fmt.Sprintf(format, args...)})
+	}
+	ggql.Sort = true
+	var calls []string
+	var root *ggql.Root
+	if m.Strat == "R" {
+		root = ggql.NewRoot(&c10MetaNode{calls: &calls})
+	} else {
+		leaf := &c10MetaX{A: 7}
+		mid := &c10MetaX{A: 7, Sub: &c10MetaX{A: 7, Sub: leaf}}
+		top := &c10MetaX{A: 7, Q: mid}
+		root = ggql.NewRoot(&c10MetaX{Query: top})
+	}
+	if err := root.ParseString(c10MetaSDL); err != nil {
+		add("setup", "%v", err)
+		return
+	}
+	sel := m.Field
+	key := m.Field[:strings.IndexAny(m.Field, " (")]
+	if m.Alias != "" {
+		sel, key = m.Alias+": "+sel, m.Alias
+	}
+	text := "a " + sel
+	for i := len(m.Path) - 1; i >= 0; i-- {
+		text = "a " + m.Path[i] + " { " + text + " }"
+	}
+	text = "{ " + text + " }"
+	func() {
+		defer func() {
+			if r := recover(); r != nil {
+				add("panic", "ResolveString panicked: %v\n%s", r, text)
+			}
+		}()
+		res = root.ResolveString(text, "", nil)
+	}()
+	if len(ds) > 0 {
+		return
+	}
+	ctx := fmt.Sprintf("\nschema:\n%srequest: %s\nresponse: %s", c10MetaSDL, text, hx.Show(hx.Norm(res)))
+	var cur interface{} = res["data"]
+	for _, p := range m.Path {
+		if cm, ok := cur.(map[string]interface{}); ok {
+			cur = cm[p]
+		} else {
+			cur = nil
+		}
+	}
+	holder, _ := cur.(map[string]interface{})
+	errs, _ := res["errors"].([]interface{})
+	if len(m.Path) == 0 {
+		// at the query root the meta field is defined
+		if len(errs) > 0 || holder == nil || holder[key] == nil {
+			add("meta-field-at-root", "the meta field at the query root (type Root, named by the schema block) is not answered%s", ctx)
+		}
+		return
+	}
+	// below the root the container (type Query - which is NOT the query type) does not define it
+	if len(errs) == 0 {
+		add("no-error", "the object type Query does not define %s (it is not the query root) but the response has no error%s", key, ctx)
+	}
+	if holder != nil && holder[key] != nil {
+		add("resolved", "the meta field selected on the object type Query (not the query root) was answered%s", ctx)
+	}
+	if res["data"] != nil && holder != nil {
+		if fmt.Sprint(holder["a"]) != "7" {
+			add("siblings", "the valid sibling selection a is not resolved%s", ctx)
+		}
+	}
+	for _, c := range calls {
+		if strings.HasPrefix(c, "__") {
+			add("resolver-invoked", "the application's resolver was asked for %s%s", c, ctx)
+		}
+	}
+	return
 }
 
 func genCaseC10(t *rapid.T) *c10Case {
@@ -454,6 +591,8 @@ func genCaseC10(t *rapid.T) *c10Case {
 	s := GenSchema(t, p)
 	s.Dirs = append(s.Dirs, &hx.DirDef{Name: "onquery", On: []string{"QUERY"}})
 	s.Dirs = append(s.Dirs, &hx.DirDef{Name: "onfield", On: []string{"FIELD"}, Args: []*hx.Arg{{Name: "level", Type: hx.Named("Int")}}})
+	// (a directive that declares no arguments at all)
+	s.Dirs = append(s.Dirs, &hx.DirDef{Name: "plain", On: []string{"FIELD", "INLINE_FRAGMENT", "FRAGMENT_SPREAD"}})
 	s.Dirs = append(s.Dirs, &hx.DirDef{Name: "need", On: []string{"FIELD", "INLINE_FRAGMENT", "FRAGMENT_SPREAD"}, Args: []*hx.Arg{{Name: "level", Type: hx.Named("Int").NN()}, {Name: "note", Type: hx.Named("String")}}})
 	if p.Args {
 		// make sure fields with a required argument exist (needed by the omitted-argument defect)
@@ -498,6 +637,10 @@ func genCaseC10(t *rapid.T) *c10Case {
 }
 
 func checkC10(cc *c10Case) (ds []hx.Discrepancy, exp *hx.Expect, res map[string]interface{}) {
+	if cc.Meta != nil {
+		d, r := checkC10Meta(cc.Meta)
+		return d, nil, r
+	}
 	add := func(kind, sig, format string, args ...interface{}) {
 		ds = append(ds, hx.Discrepancy{Kind: kind, Sig: sig, Detail: fmt.Sprintf(format, args...)})
 	}
@@ -646,6 +789,9 @@ func TestC10(t *testing.T) {
 	run := hx.NewRun("C10")
 	defer run.Flush()
 	classes := func(cc *c10Case, res map[string]interface{}) (bool, []string) {
+		if cc.Meta != nil {
+			return len(cc.Meta.Path) > 0, []string{"meta-field-scenario", fmt.Sprintf("meta-field-depth=%d", len(cc.Meta.Path)), "strategy=" + cc.Meta.Strat}
+		}
 		df := cc.Defect
 		cl := []string{"strategy=" + stratName(cc.Case), "defect=" + df.Kind, "container=" + df.ConKind, fmt.Sprintf("response-key-selected-before=%v", df.KeyTaken), fmt.Sprintf("required-argument-written-as-valueless-variable=%v", df.ViaVar),
 			fmt.Sprintf("%s/%s/%s", df.Kind, df.ConKind, stratName(cc.Case))}
@@ -676,6 +822,16 @@ func TestC10(t *testing.T) {
 		return
 	}
 	rapid.Check(t, func(rt *rapid.T) {
+		if rapid.IntRange(0, 15).Draw(rt, "metaFieldScenario") == 0 {
+			cc := &c10Case{Meta: genC10Meta(rt)}
+			ds, _, res := checkC10(cc)
+			nt, cl := classes(cc, res)
+			run.Case(hx.Hash(cc), nt, cl...)
+			if real := run.Triage(ds); len(real) > 0 {
+				rt.Fatalf("C10 violated: %s", run.ReportFailure(cc, real))
+			}
+			return
+		}
 		cc := genCaseC10(rt)
 		ds, _, res := checkC10(cc)
 		nt, cl := classes(cc, res)
